@@ -1,17 +1,26 @@
 #!/venv/bin/python
 """Stand-in for the `sugar` executable: logs how it was called and what it was given, and answers with the
-reply prepared by the harness (files named by FAKE_SUGAR_DIR)."""
+reply prepared by the harness (files named by FAKE_SUGAR_DIR; request_<n>.txt / reply_<n>.txt for the n-th call of a conversation)."""
 import os
 import sys
 
 d = os.environ.get("FAKE_SUGAR_DIR", ".")
 data = sys.stdin.buffer.read()
-with open(os.path.join(d, "request.txt"), "wb") as f:
+n = 0
+while os.path.exists(os.path.join(d, "request_%d.txt" % n)):
+    n += 1
+with open(os.path.join(d, "request_%d.txt" % n), "wb") as f:
     f.write(data)
+if n == 0:
+    with open(os.path.join(d, "request.txt"), "wb") as f:
+        f.write(data)
 with open(os.path.join(d, "argv.txt"), "w") as f:
     f.write("\n".join(sys.argv))
 try:
-    reply = open(os.path.join(d, "reply.txt")).read()
+    try:
+        reply = open(os.path.join(d, "reply_%d.txt" % n)).read()     # a scripted conversation
+    except OSError:
+        reply = open(os.path.join(d, "reply.txt")).read()
 except OSError:
     reply = "s UNSATISFIABLE\n" if b"\n#" not in b"\n" + data else "unsat\n"
 sys.stdout.write(reply)
